@@ -242,7 +242,9 @@ class ScriptedAdbDevice(object):
       if s is not None:
         s['host_wrte_unacked'] = True     # until the host has read our OKAY (never, if this stream does not acknowledge)
       if s is not None and (self.script[s['idx']] if s['idx'] < len(self.script) else {}).get('ack_host_writes', True):
-        self._emit('OKAY', s['remote'], s['local'], meta=('ack', s['local']))
+        # a slow device: the acknowledgement becomes readable only ack_delay_s after the WRTE (waited for by the reader)
+        delay = (self.script[s['idx']] if s['idx'] < len(self.script) else {}).get('ack_delay_s')
+        self._emit('OKAY', s['remote'], s['local'], meta=['ack', s['local'], delay])
       self._pump()
     elif cmd == 'CLSE':
       if s is not None:
@@ -301,6 +303,15 @@ class ScriptedAdbDevice(object):
           if timeout_ms is None:
             self.blocked_forever += 1
           raise timeout_error()
+      if self.out_meta and self.out_meta[0] and self.out_meta[0][0] == 'ack' and len(self.out_meta[0]) > 2 and self.out_meta[0][2]:
+        pending = self.out_meta[0]
+        delay, pending[2] = pending[2], None
+        budget = None if timeout_ms is None else timeout_ms / 1000.0
+        if budget is not None and budget < delay:
+          self.cond.wait(budget)      # the reader gives up before the acknowledgement arrives
+          pending[2] = delay - budget
+          raise timeout_error()
+        self.cond.wait(delay)
       meta = self.out_meta.popleft() if self.out_meta else None
       if meta and meta[0] == 'ack':
         st = self.by_local.get(meta[1])
